@@ -67,6 +67,8 @@ def emit_file(j, fmt):
 
 EXT = {"json": "json", "yaml": "yaml", "json5": "json5"}
 
+FORCE_FALLBACK = False     # probe crates: integer ranges must be exhaustive for rustc
+
 # ---- value generators ---------------------------------------------------------------------------
 
 def gen_range_spec(rng, ty, allow_fallback=True):
@@ -108,7 +110,7 @@ def gen_ranges(rng, strings, ty="?", count_name=None):
     if ty is not None:
         items.append(ty)
     nb = rng.range(1, 4)
-    fallback = isf or rng.chance(2, 3)
+    fallback = isf or FORCE_FALLBACK or rng.chance(2, 3)
     for i in range(nb):
         spec_n = rng.range(1, 2)
         specs = [gen_range_spec(rng, eff) for _ in range(spec_n)]
@@ -159,11 +161,14 @@ def branch_string(vars_):
     return f
 
 
-def gen_key_value(rng, plan, locale_is_default, all_paths):
-    """value of one key for one locale according to the plan"""
+def gen_key_value(rng, plan, locale_is_default, all_paths, rec=None):
+    """value of one key for one locale according to the plan; `rec` receives what was generated"""
     k = plan.kind
     if k == "string":
-        return gen.print_src(gen.gen_src(rng, maxn=4, vars_=plan.vars))
+        src = gen.gen_src(rng, maxn=4, vars_=plan.vars)
+        if rec is not None:
+            rec["src"] = src
+        return gen.print_src(src)
     if k == "lit":
         return rng.pick([U(rng.range(0, 99)), I(-rng.range(1, 99)), F(rng.pick(["1.5", "0.25", "10.0", "-2.5"])), True, False, "plain"])
     if k == "ranges":
@@ -210,35 +215,52 @@ def default_args(rng, tplan):
     return None
 
 
-def gen_locale_tree(rng, plans, locale, is_default, opts, depth=0):
-    """an object for one locale following `plans` (ordered list of (key, Plan))"""
+def gen_locale_tree(rng, plans, locale, is_default, opts, depth=0, meta=None, ns=None, prefix=()):
+    """an object for one locale following `plans` (ordered list of (key, Plan)); `meta[(ns, locale, path)]`
+    records what each key is (kind, source AST, presence)"""
     pairs = []
+    meta = meta if meta is not None else {}
     for key, plan in plans:
+        path = prefix + (key,)
+        rec = {"kind": plan.kind, "presence": "defined"}
+        meta[(ns, locale, path)] = rec
         if not is_default:
             r = rng.below(20)
             if r < 2 and not (getattr(plan, "pinned", False) and not rng.chance(1, 10)):
+                rec["presence"] = "absent"
                 continue                 # absent
             if r < 4 and plan.kind != "plural":
+                rec["presence"] = "null"
                 pairs.append((key, None))    # explicit null
                 continue
         if plan.kind == "group":
             if not is_default and rng.chance(1, 25) and opts.get("mismatch", True):
+                rec["kind"] = "mismatch"
                 pairs.append((key, "a value where subkeys are expected"))
             else:
-                pairs.append((key, gen_locale_tree(rng, plan.children, locale, is_default, opts, depth + 1)))
+                pairs.append((key, gen_locale_tree(rng, plan.children, locale, is_default, opts, depth + 1, meta, ns, path)))
         elif plan.kind == "plural":
             forms = list(plan.forms) if is_default else [f for f in FORMS if f == "other" or rng.chance(1, 2)]
             infix = "_ordinal" if plan.ordinal else ""
+            rec["forms"] = {}
+            rec["ordinal"] = plan.ordinal
             for f in forms:
-                pairs.append((f"{key}{infix}_{f}", gen.print_src(gen.gen_src(rng, maxn=3, comps=False, fmts=False, vars_=plan.vars + ["count"]))))
+                src = gen.gen_src(rng, maxn=3, comps=False, fmts=False, vars_=plan.vars + ["count"])
+                rec["forms"][f] = src
+                pairs.append((f"{key}{infix}_{f}", gen.print_src(src)))
         else:
             p = plan
             if not is_default and rng.chance(1, 8) and opts.get("mixed", True):
                 # another kind in this locale
                 p = Plan(rng.pick(["string", "lit"]), vars=getattr(plan, "vars", ["x"]))
-            pairs.append((key, gen_key_value(rng, p, is_default, None)))
-    if not is_default and rng.chance(1, 5):
-        pairs.append((rng.pick(["extra", "zzz", "only_here"]), "surplus"))
+                rec["kind"] = p.kind
+            val = gen_key_value(rng, p, is_default, None, rec)
+            rec["value"] = val
+            pairs.append((key, val))
+    if not is_default and rng.chance(1, 5) and opts.get("surplus", True):
+        sk = rng.pick(["extra", "zzz", "only_here"])
+        meta[(ns, locale, prefix + (sk,))] = {"kind": "surplus", "presence": "defined"}
+        pairs.append((sk, "surplus"))
     if opts.get("shuffle", True):
         pairs = rng.shuffle(pairs)
     return O(pairs)
@@ -322,10 +344,11 @@ def gen_project(rng, opts=None):
                     targets.append((key, Plan("string", vars=["z"])))   # chains
         all_plans[ns] = plans
     # effective locale order as the implementation will use it is computed by the config model
+    meta = {}
     for ns in (namespaces or [None]):
-        for l in set(locales):
-            files[(ns, l)] = gen_locale_tree(rng, all_plans[ns], l, l == default, opts)
-    return {"default": default, "locales": listed, "all_locales": sorted(set(locales)), "namespaces": namespaces,
+        for l in sorted(set(locales)):
+            files[(ns, l)] = gen_locale_tree(rng, all_plans[ns], l, l == default, opts, 0, meta, ns, ())
+    return {"meta": meta, "plans": all_plans, "default": default, "locales": listed, "all_locales": sorted(set(locales)), "namespaces": namespaces,
             "inherits": inherits, "files": files, "extra_cfg": rng.chance(1, 4)}
 
 
